@@ -99,27 +99,27 @@ TEXT = {
         "technique": REF + " (independent recomputation of every constant / defining equation at run time)",
     },
     "C20": {
-        "text": "A committed grid of 5179 literals (MontFp!, BigInt!, const Fp::new) over 20 moduli with N = 1..13 limbs - every accepted radix prefix, minus sign, leading zeros, values 0, p-1, >= p up to 2^(64N)-1 and limb-boundary values - is compiled into the monitor and each constant is compared at run time with the Python-computed value, an independent parse of its text and the run-time constructors; octal/binary literals are additionally expanded in a run-time context so mis-read radices surface as violations. Derive-macro products (limb count, modulus limbs, generator, 2-adic and large-subgroup roots, R, R2, INV) of 164 grid configurations, 7 small-subgroup fields and 40 shipped fields are recomputed with num-bigint. The grid is a fixed, completely enumerated sub-space (exhaustive over the grid, not over all strings); quick = thorough.",
+        "text": "A committed grid of 5179 literals (MontFp!, BigInt!, const Fp::new) over 20 moduli with N = 1..13 limbs - every accepted radix prefix, minus sign, leading zeros, values 0, p-1, >= p up to 2^(64N)-1 and limb-boundary values - is compiled into the monitor and each constant is compared at run time with the Python-computed value, an independent parse of its text and the run-time constructors; octal/binary literals are additionally expanded in a run-time context so mis-read radices surface as violations. Derive-macro products (limb count, modulus limbs, generator, 2-adic and large-subgroup roots, R, R2, INV) of 164 grid configurations, 7 small-subgroup fields and 40 shipped fields are recomputed with num-bigint. The grid is a fixed, completely enumerated sub-space (exhaustive over the grid, not over all strings). In addition (a) `lit_probe` is built and run once per class - each literal syntax class, `derive_small_subgroup` (subgroups 3^21, 3^41, 5^28 > 2^32 / 2^64) and `const_ctor` - so that a class that stops compiling is a localised violation; (b) the const constructors Fp::new / Fp::from_sign_and_limbs, being const fn, are driven at run time on all 204 prime-field configurations (and on 13 probe fields independent of the curve crates) with structural, edge-biased and oracle-crafted integers (Montgomery form / pre-subtraction value sharing limbs with p) and compared with the integer mod p.",
         "design_ref": "DESIGN.md §4 C20",
         "note": "compile-time evaluation observed at run time; literals that do not fit are documented compile errors and are not generated.",
-        "technique": REF + " (compile-time constants compared at run time with Python-generated expectations)",
+        "technique": REF + " (compile-time constants compared at run time with Python-generated expectations; per-class compile probes; const constructors executed at run time against num-bigint)",
     },
     "C09": {
         "text": "Every field configuration (184 generated grid fields with 0-7 spare top bits and flag-spill cases, 40 shipped prime fields, 27 shipped towers, 4 toy towers), Affine and Projective with Z != 1 of 45 shipped SW/TE curve configs including bls12_381's zcash format, every point of 11 toy curves, and PairingOutput of 4 engines are serialized in both compression modes and through serialize_with_flags with Empty/SW/TE flags. Bytes are compared with an oracle encoder that works from integer values only (LE integer in ceil((bits+flags)/8) bytes, flags in the top bits, SW/TE/zcash point layouts, documented lexicographic sign rule); serialized_size is compared with the bytes written; round trips are checked in validated and unchecked modes on raw Montgomery limbs. Field-encoding uniqueness is decided by offering p, p+1, 2^bits-1, every unused high bit, every flag pattern, 0xFF.., uniform strings, and all 1-2-byte strings of tiny fields, and requiring that accepted strings re-serialize identically.",
         "design_ref": "DESIGN.md §4 C09",
-        "note": "sampled except where the evidence says exhaustive; 20 required observation classes; thorough also runs the plain-release (`rel`) build.",
+        "note": "sampled except where the evidence says exhaustive; 20 required observation classes; both API spellings (mode-taking methods and serialize_compressed / uncompressed_size / deserialize_*_unchecked wrappers) under the same oracles; thorough also runs the plain-release (`rel`) build and a Miri slice.",
         "technique": REF + " (oracle-side expected encodings, counting writer)",
     },
     "C10": {
         "text": "For 45 shipped curve configs x 2 modes x {validate, unchecked} x {Affine, Projective}, the 11 toy curves (all 2^8/2^16 byte strings; 2^24 in thorough, with an oracle accept/reject table from u64 point enumeration), all field types, and PairingOutput of 4 engines, deserialization is fed valid, uniform, bit-flipped (every bit of the flag byte), truncated (every length), extended, rootless, off-curve, out-of-subgroup (unchecked lifts and small-order r*T on every cofactor > 1 curve), conflicting-flag and infinity-with-payload inputs. Panics are caught, reads are bounded by a counting reader, every point accepted with validation is re-checked by the curve equation in plain field operations and r*P = 0 by a harness double-and-add, accepted field elements are decoded from raw limbs and compared with p, and the flag decoders are checked on all 256 bytes.",
         "design_ref": "DESIGN.md §4 C10",
-        "note": "runs in the `mon` profile and, for thorough, the `rel` profile; a Miri slice exists (`mon_ser --miri-slice`) but is not part of the registered commands (4-14 min per property).",
+        "note": "runs in the `mon` profile; thorough adds the plain-release (`rel`) build and a Miri slice (`cargo +nightly miri run`, `--miri-slice`: N <= 2 fields, toy curves, containers; Undefined Behavior reports are violations). Both API spellings (mode-taking methods and the convenience wrappers deserialize_compressed[_unchecked] / deserialize_uncompressed[_unchecked]) are driven under the same oracles.",
         "technique": REF + " (hostile byte strings, panic capture, counting reader, oracle re-validation of accepted values)",
     },
     "C18": {
         "text": "94 concrete composite types (primitives, Option, tuples, arrays, Vec/VecDeque/LinkedList, String, BTreeMap/BTreeSet, BigUint, BigInt<N>, Arc, Cow, PhantomData, the four mode-pinning wrappers over a curve point, and seven derive structs including nested-tuple and generic ones, nesting <= 5) are generated recursively and checked for round-trip equality, serialized_size equal to bytes written in both modes, and equality with an independent encoder that localises mismatches to the innermost node; serialize-only Rc/&/&mut/&[T] are covered too. Malformed input - every truncation, bool bytes 2..255, invalid UTF-8, length prefixes n+1 .. u64::MAX at every nesting level, bit flips, uniform bytes - must yield Err with no panic and a largest single allocation <= 64*len + 1 MiB; the dangerous cases run in a re-executed child under RLIMIT_AS 4 GiB, and an abort of the child is a violation.",
         "design_ref": "DESIGN.md §4 C18",
-        "note": "allocation monitor = #[global_allocator] wrapper inside mon_ser; child processes for cases that could abort.",
+        "note": "allocation monitor = #[global_allocator] wrapper inside mon_ser; child processes for cases that could abort; VecDeque values are built through every ring-buffer history (wrapped layouts are a required class); both API spellings; thorough adds the `rel` build and a Miri slice.",
         "technique": REF + " (independent encoder, allocation monitor, fault injection by malformed input in a sandboxed child)",
     },
 }
